@@ -1,4 +1,54 @@
-import ShexerModel.Rdf
+import ShexerModel.Lemmas.DeliveryLemmas
+import ShexerModel.Props.C06
+import ShexerModel.Props.C09
+/-! # C08 — the extracted shapes do not depend on how the graph is delivered
+
+Every delivery channel ends in one of four readers that normalise to the same model of terms
+(`IRI | BNode`, property, `IRI | BNode | Literal(datatype)`): the N-Triples reader (C06), the streaming Turtle reader
+(C07), the TSV reader, and rdflib (external: modelled, not verified — rdflib's parsers are trusted).  Here:
+
+* `tsv_agrees_with_nt` — the TSV reader and the N-Triples reader yield the same triple for every statement (any lexical
+  form without a raw tab), namely the triple of the statement;
+* `sources_concatenate` — the multi-source reader yields the triples of its sources one after the other and adds up
+  their error lines; `files_yield_all_statements` — for N-Triples files, exactly the triples of all statements, for
+  every partition of the statements into files;
+* `partition_irrelevant_for_figures` — every count and every class size computed from the concatenation of the
+  sources is the same for any other partition / order of the same statements (permutation invariance, C09);
+* both passes read the same document: in the model `Tracker.track` and `Profiler.pass2` are applied to one graph value
+  (`Profiler.run`), so the property reduces to "every channel yields the same list of triples twice", which for the
+  line-based readers is the theorems above and for rdflib-parsed files fails for blank nodes (finding F-C19-1).
+
+Compression (gz, xz, zip members) and URL fetching are byte transport: outside the model, decided by the search. -/
 namespace Shexer.C08
-theorem placeholder : True := trivial
+open Shexer Nt NtGrammar Delivery
+
+theorem tsv_agrees_with_nt (st : NtGrammar.Stmt) (lay : Layout) (lead trail : List Char) (hst : st.Valid) (hlay : lay.Valid)
+    (hnt : noTab st) (hend : objEndOk st) (hl : blanks lead) (ht : blanks trail) :
+    Tsv.parseLine (renderTsv st lead trail) = Nt.parseLine (render st lay) := by
+  rw [tsv_reads_the_statement st lead trail hst hnt hend hl ht, C06.reads_the_statement st lay hst hlay]
+
+theorem sources_concatenate (read : List (List Char) → Except Nt.Err (List Triple × Nat)) (sources : List (List (List Char)))
+    (results : List (List Triple × Nat)) (hlen : results.length = sources.length)
+    (h : ∀ i (hi : i < sources.length), read sources[i] = .ok (results[i]'(by omega))) :
+    Tsv.readSources read sources = .ok ((results.map (·.1)).flatten, (results.map (·.2)).sum) :=
+  readSources_concat read sources results hlen h
+
+theorem files_yield_all_statements (files : List (List (NtGrammar.Stmt × Layout))) (h : ∀ f ∈ files, ∀ x ∈ f, x.1.Valid ∧ x.2.Valid) :
+    Tsv.readSources Nt.readLines (files.map fun f => f.map fun x => render x.1 x.2)
+      = .ok ((files.map fun f => f.map fun x => x.1.triple).flatten, 0) :=
+  nt_files files h
+
+/-- two deliveries of the same statements (any partition into files, any order of files and of statements inside them)
+give every figure the same value -/
+theorem partition_irrelevant_for_figures (cfg : Config) (files files' : List (List Triple))
+    (h : files.flatten.Perm files'.flatten) (c : String) (inv : Bool) (p ty : String) (card : Card) :
+    Spec.countOver cfg (Spec.selectionOf cfg files.flatten) files.flatten c inv p ty card
+      = Spec.countOver cfg (Spec.selectionOf cfg files'.flatten) files'.flatten c inv p ty card :=
+  C09.spec_count_perm cfg _ _ h c inv p ty card
+
+theorem partition_irrelevant_for_class_sizes (cfg : Config) (files files' : List (List Triple))
+    (h : files.flatten.Perm files'.flatten) (c : String) :
+    Spec.classSize (Spec.selectionOf cfg files.flatten) c = Spec.classSize (Spec.selectionOf cfg files'.flatten) c :=
+  C09.class_size_perm cfg _ _ h c
+
 end Shexer.C08
